@@ -380,7 +380,7 @@ func ruleEmitNoReuse(c *eng.Ctx) {
 
 // caseSignature: for each case label of the main `switch n.Data` of a traversal function, the
 // ordered list of callee names and assigned field names in the clause.
-func caseSignature(fd *eng.FuncDecl, selfNames map[string]bool) map[string][]string {
+func caseSignature(fd *eng.FuncDecl, selfNames map[string]bool, spliceable map[string]bool) map[string][]string {
 	out := map[string][]string{}
 	info := fd.Pkg.TypesInfo
 	var main *ast.SwitchStmt
@@ -404,7 +404,7 @@ func caseSignature(fd *eng.FuncDecl, selfNames map[string]bool) map[string][]str
 		case *ast.SelectorExpr:
 			id = f.Sel
 		}
-		if id == nil || ast.IsExported(id.Name) || selfNames[id.Name] {
+		if id == nil || ast.IsExported(id.Name) || selfNames[id.Name] || !spliceable[id.Name] {
 			return nil
 		}
 		fobj, ok := info.Uses[id].(*types.Func)
@@ -435,7 +435,7 @@ func caseSignature(fd *eng.FuncDecl, selfNames map[string]bool) map[string][]str
 					if selfNames[name] {
 						name = "<self>"
 					}
-					if body := helperBody(x); body != nil && depth < 2 && len(body.List) <= 6 {
+					if body := helperBody(x); body != nil && depth < 2 && len(body.List) <= 30 {
 						// a small local helper: what it does counts, not its name
 						visit(body, depth+1)
 						for _, a := range x.Args {
@@ -493,7 +493,21 @@ func ruleSiblingTraversals(c *eng.Ctx) {
 		return
 	}
 	self := map[string]bool{"traverseNode": true, "traverseNodeFiltered": true}
-	sa, sb := caseSignature(a, self), caseSignature(b, self)
+	// helpers called by only one of the siblings are blocks that sibling extracted: they are spliced;
+	// helpers both call stay opaque steps
+	ca, cb := calledNames(a), calledNames(b)
+	spliceable := map[string]bool{}
+	for n := range ca {
+		if !cb[n] {
+			spliceable[n] = true
+		}
+	}
+	for n := range cb {
+		if !ca[n] {
+			spliceable[n] = true
+		}
+	}
+	sa, sb := caseSignature(a, self, spliceable), caseSignature(b, self, spliceable)
 	keys := map[string]bool{}
 	for k := range sa {
 		keys[k] = true
@@ -524,7 +538,7 @@ func ruleSiblingTraversals(c *eng.Ctx) {
 		case !okA || !okB:
 			c.Viol(R, key, b.Decl.Pos(), "element case exists in only one of the two traversals: content handled in mode None is handled differently (or not at all) in the filtering modes")
 		case multiset(strip(x)) != multiset(strip(y)):
-			c.Viol(R, key, b.Decl.Pos(), "the two traversals handle this element differently (calls/updates differ): unexcluded content is no longer identical across modes")
+			c.Viol(R, key, b.Decl.Pos(), "the two traversals handle this element differently (calls/updates differ: "+stepDiff(strip(x), strip(y))+"): unexcluded content is no longer identical across modes")
 		default:
 			c.Ok(R, key, b.Decl.Pos(), fmt.Sprintf("%d steps agree", len(strip(x))))
 		}
@@ -537,4 +551,42 @@ func multiset(sig []string) string {
 	c := append([]string(nil), sig...)
 	sort.Strings(c)
 	return strings.Join(c, " ")
+}
+
+// stepDiff lists the steps present in only one of two step lists.
+func stepDiff(a, b []string) string {
+	cnt := map[string]int{}
+	for _, s := range a {
+		cnt[s]++
+	}
+	for _, s := range b {
+		cnt[s]--
+	}
+	var only []string
+	for s, n := range cnt {
+		if n > 0 {
+			only = append(only, fmt.Sprintf("%s only in traverseNode x%d", s, n))
+		} else if n < 0 {
+			only = append(only, fmt.Sprintf("%s only in traverseNodeFiltered x%d", s, -n))
+		}
+	}
+	sort.Strings(only)
+	return strings.Join(only, ", ")
+}
+
+// calledNames: names of the functions/methods called directly in the body of fd.
+func calledNames(fd *eng.FuncDecl) map[string]bool {
+	out := map[string]bool{}
+	ast.Inspect(fd.Decl.Body, func(n ast.Node) bool {
+		if x, ok := n.(*ast.CallExpr); ok {
+			switch f := x.Fun.(type) {
+			case *ast.Ident:
+				out[f.Name] = true
+			case *ast.SelectorExpr:
+				out[f.Sel.Name] = true
+			}
+		}
+		return true
+	})
+	return out
 }
